@@ -356,6 +356,22 @@ def install_spec_builtins(ip):
         return True
     B["freeze_time"] = Builtin("freeze_time", _freeze_time)
 
+    def _emit(ip, a, k):
+        ev = ip.event(a[0], a[1:], k)
+        h = getattr(ip, "on_effect", None)
+        if h is not None:
+            h(ev)
+        return None
+    B["emit"] = Builtin("emit", _emit)
+
+    def _be_value(ip, a, k):
+        from .prims import be_value
+        v = a[0]
+        if isinstance(v, bytes):
+            return int.from_bytes(v, "big")
+        return be_value(ip, v.t)
+    B["be_value"] = Builtin("be_value", _be_value)
+
     B["resolve_class"] = Builtin("resolve_class", lambda ip, a, k: ip.resolve_class(a[0]))
     B["resolve_module"] = Builtin("resolve_module", lambda ip, a, k: ip.src.load_path(a[0]))
 
